@@ -3,6 +3,7 @@ package checks
 import (
 	"fmt"
 	"math/rand"
+	"net/url"
 	"regexp"
 	"sort"
 	"strings"
@@ -317,7 +318,25 @@ func c19Unit(c *RunCtx, unit int) {
 		if r.Intn(8) == 0 { // a backend call of this registration fails once
 			w.FaultOps = map[string]error{pickS(r, "Save", "Create", "hash", "render", "Load"): errGeneric}
 		}
-		rec := w.Do(b, world.Req{Method: "POST", Path: w.P("/register"), Pairs: pairs})
+		regPath, sent := w.P("/register"), pairs
+		if !cfg.JSON && i%5 == 4 && len(pairs) == len(eff) {
+			// a form whose action URL carries part of the fields (password and confirmation in the query string,
+			// the rest in the body): a field is a field wherever in the request it travels
+			q := url.Values{}
+			sent = nil
+			for _, p := range pairs {
+				if p[0] == "password" || p[0] == "confirm_password" {
+					q.Set(p[0], p[1])
+				} else {
+					sent = append(sent, p)
+				}
+			}
+			if len(q) > 0 {
+				regPath += "?" + q.Encode()
+				c.Stats.Count("registrations-with-fields-in-the-query-string")
+			}
+		}
+		rec := w.Do(b, world.Req{Method: "POST", Path: regPath, Pairs: sent})
 		c.Stats.Evaluations++
 		uidAfter := w.Sess.Of(b)["uid"]
 		diff := rec.Diff()
@@ -444,7 +463,7 @@ func c19Unit(c *RunCtx, unit int) {
 func init() {
 	register(&Check{
 		ID: "C19", Level: "exploration",
-		Rule:  "per unit 40 POST /register requests through the real stack with field maps containing duplicates (form: first wins, JSON: last wins), missing fields, mismatched/absent confirm field, hostile extra fields (confirmed, locked, oauth2_uid, Password, totp_secret_key, name, role, ...), identifiers that exist / are blank / malformed, passwords on both sides of every default minimum and of bcrypt's 72-byte limit; register whitelists with 0-2 extra application fields; with and without the confirm module; form and JSON; registering browser anonymous or logged in. Oracle from the statement: refused (invalid by an independent evaluator / existing id / unhashable) => storage byte-identical and session user unchanged; else exactly one record whose password bcrypt-verifies the submitted one, PutArbitrary saw only whitelisted keys, every other stored field is at its zero value, logged in iff confirm is not loaded, else exactly one confirmation mail to that address. Plus a differential sweep of defaults.Rules.IsValid/Errors against an independent evaluator over generated rule settings x generated ASCII strings incl. strings exactly at / one below / one beyond the minima. In a third of the units the user type keeps its e-mail address apart from the primary identifier (a username site: new accounts have none yet); in half, the application appended rules of its own to the shipped rulesets. distinct_nontrivial = distinct request signatures + policy signatures.",
+		Rule:  "per unit 40 POST /register requests through the real stack with field maps containing duplicates (form: first wins, JSON: last wins), missing fields, mismatched/absent confirm field, hostile extra fields (confirmed, locked, oauth2_uid, Password, totp_secret_key, name, role, ...), identifiers that exist / are blank / malformed, passwords on both sides of every default minimum and of bcrypt's 72-byte limit; register whitelists with 0-2 extra application fields; with and without the confirm module; form and JSON; registering browser anonymous or logged in. Oracle from the statement: refused (invalid by an independent evaluator / existing id / unhashable) => storage byte-identical and session user unchanged; else exactly one record whose password bcrypt-verifies the submitted one, PutArbitrary saw only whitelisted keys, every other stored field is at its zero value, logged in iff confirm is not loaded, else exactly one confirmation mail to that address. Plus a differential sweep of defaults.Rules.IsValid/Errors against an independent evaluator over generated rule settings x generated ASCII strings incl. strings exactly at / one below / one beyond the minima. In a third of the units the user type keeps its e-mail address apart from the primary identifier (a username site: new accounts have none yet); in half, the application appended rules of its own to the shipped rulesets. Every fifth form registration sends password and confirmation in the query string of the form's action URL and the rest in the body. distinct_nontrivial = distinct request signatures + policy signatures.",
 		Units: func(t string) int { return tierN(t, 64, 3000) },
 		Run:   c19Unit,
 		Floors: func(t string) map[string]int {
